@@ -193,8 +193,8 @@ CMP_FORMS = [("lt", "r = a < b", "lt"), ("le", "r = a <= b", "le"), ("gt", "r = 
              ("eq", "r = a == b", "eq"), ("ne", "r = a != b", "ne"), ("np.less", "r = np.less(a, b)", "lt"),
              ("np.equal", "r = np.equal(a, b)", "eq"), ("np.greater_equal", "r = np.greater_equal(a, b)", "ge")]
 MUL_FORMS = [("operator", "r = a * b"), ("ufunc", "r = np.multiply(a, b)"), ("inplace", "r = a.copy(); r *= b")]
-DIV_FORMS = [("operator", "r = a / b"), ("ufunc", "r = np.divide(a, b)"), ("inplace", "r = a.copy(); r /= b"),
-             ("floor", "r = a // b")]
+DIV_FORMS = [("operator", "r = a / b"), ("ufunc", "r = np.divide(a, b)"), ("inplace", "r = a.copy(); r /= b")]
+FLOOR_FORMS = [("floor", "r = a // b"), ("floor-ufunc", "r = np.floor_divide(a, b)"), ("floor-inplace", "r = a.copy(); r //= b")]
 PYCMP = {"lt": lambda p, q: p < q, "le": lambda p, q: p <= q, "gt": lambda p, q: p > q, "ge": lambda p, q: p >= q,
          "eq": lambda p, q: p == q, "ne": lambda p, q: p != q}
 
@@ -280,7 +280,7 @@ def run(tier, seed):
         ask(f"c08.row\t{b}", ("row", b, float(v[0]), float(v[2]), bool(v[4])))
     for p, v in ult.unit_prefixes.items():
         ask(f"c08.prefix\t{p}", ("prefix", p, float(v[0])))
-    for uf in ("add", "subtract", "multiply", "divide", "power", "sqrt", "square", "reciprocal", "less", "equal"):
+    for uf in ("add", "subtract", "multiply", "divide", "floor_divide", "power", "sqrt", "square", "reciprocal", "less", "equal"):
         ask(f"c08.rule\t{uf}", ("rule", uf, _ua._ufunc_registry[getattr(np, uf)].__name__))
     for u in units:
         ask(f"c08.unit\t{u.wire}", ("unit", u))
@@ -370,7 +370,7 @@ def run(tier, seed):
             for i, (x0, x1) in enumerate(zip(xs0, xs1)):
                 ask(f"c08.cmp\t{u0.wire}\t{u1.wire}\t{f2b(x0)}\t{f2b(x1)}", ("cmp", u0, u1, i, x0, x1, outcomes))
             # -- multiply / divide
-            for op, forms, opc in (("mul", MUL_FORMS, "c08.mul"), ("div", DIV_FORMS, "c08.div")):
+            for op, forms, opc in (("mul", MUL_FORMS, "c08.mul"), ("div", DIV_FORMS, "c08.div"), ("floordiv", FLOOR_FORMS, "c08.floordiv")):
                 outcomes = {}
                 xs1nz = [x if x != 0 else 1.5 for x in xs1]
                 for fname, code in forms:
@@ -383,11 +383,15 @@ def run(tier, seed):
                         outcomes[fname] = ("ok", float(r.units.base_value), vals(r))
                         if u0.kind == "point" or u1.kind == "point":
                             src = guarded(f"a = {mk_src('a', xs0, u0.spelling)}\nb = {mk_src('a', xs1nz, u1.spelling)}\n")
-                            chk.fail(f"no-refusal|{op}|{pairkey}", f"{u0.spelling} {op} {u1.spelling} with an offset-scale operand returned {r!r}",
+                            chk.fail(f"no-refusal|{'div' if op == 'floordiv' else op}|{pairkey}", f"{u0.spelling} {op} {u1.spelling} with an offset-scale operand returned {r!r}",
                                      {"python": snippet(src + RAISES_SRC + f"def f():\n    {code.replace('; ', chr(10) + '    ')}\n    return r\nbad, r = raises(f)\nassert bad, r\n"), "form": fname})
                     else:
                         outcomes[fname] = res
-                ask(f"{opc}\t{u0.wire}\t{u1.wire}", (op, u0, u1, xs0, xs1nz, outcomes))
+                if op == "floordiv":  # one line per element: the model returns the rescaled divisor
+                    for i, x1 in enumerate(xs1nz):
+                        ask(f"{opc}\t{u0.wire}\t{u1.wire}\t{f2b(x1)}", (op, u0, u1, i, xs0[i], x1, outcomes))
+                else:
+                    ask(f"{opc}\t{u0.wire}\t{u1.wire}", (op, u0, u1, xs0, xs1nz, outcomes))
     chk.extra["pairs"] = npairs
     chk.extra["units"] = len(units)
 
@@ -413,7 +417,7 @@ def run(tier, seed):
         xs = readings(rng, 2)
         for wire, src_o, _bare, _sc in OTHERS:
             for side in ("left", "right"):
-                for op, sym, opc in (("mul", "*", "c08.mul"), ("div", "/", "c08.div")):
+                for op, sym, opc in (("mul", "*", "c08.mul"), ("div", "/", "c08.div"), ("floordiv", "//", "c08.floordiv")):
                     tsrc = mk_src("a", xs, u.spelling)
                     expr = f"({tsrc}) {sym} ({src_o})" if side == "left" else f"({src_o}) {sym} ({tsrc})"
                     code = f"r = {expr}"
@@ -425,10 +429,10 @@ def run(tier, seed):
                         res = ("err", core.exc_name(e))
                     chk.case(("scalar", op, u.name, wire, src_o, side))
                     if res[0] == "ok" and u.kind == "point":
-                        chk.fail(f"no-refusal|{op}|{u.shape}|{wire}", f"{expr} with an offset-scale operand returned {res[1]!r}",
+                        chk.fail(f"no-refusal|{'div' if op == 'floordiv' else op}|{u.shape}|{wire}", f"{expr} with an offset-scale operand returned {res[1]!r}",
                                  {"python": snippet(RAISES_SRC + f"bad, r = raises(lambda: {expr})\nassert bad, r\n")})
                     a, b = (u.wire, wire) if side == "left" else (wire, u.wire)
-                    ask(f"{opc}\t{a}\t{b}", ("scalar", op, u, expr, res))
+                    ask(f"{opc}\t{a}\t{b}" + (f"\t{f2b(2.5)}" if op == "floordiv" else ""), ("scalar", op, u, expr, res))
 
     # ---- unary power forms, reductions, diff --------------------------------------------------
     UNARY = [("sqrt", "", "np.sqrt(a)"), ("cbrt", "", "np.cbrt(a)"), ("square", "", "np.square(a)"), ("reciprocal", "", "np.reciprocal(a)"),
@@ -561,7 +565,7 @@ def run(tier, seed):
 
     rule = ("all ordered pairs of the temperature units (K, R, degC, degF, delta_degC, delta_degF and the SI-prefixed K/degC/delta_degC: "
             "prefixes m,k,da,µ in the quick tier, all 22 in the thorough tier) x {add, subtract} x {operator, ufunc, in-place, out=} x {array, quantity} "
-            "+ 9 comparison forms + {multiply, divide} x {operator, ufunc, in-place, floor} + 4 conversion routes; every unit x 19 power/root/product forms, "
+            "+ 9 comparison forms + {multiply, divide, floor_divide} x {operator, ufunc, in-place} + 4 conversion routes; every unit x 19 power/root/product forms, "
             "4 reductions, diff/ediff1d/ptp, x/÷ with a number, a dimensionless quantity and metres on either side; alternative spellings; "
             "readings: the regression witness (1, 50) plus seeded values; distinct = distinct (form, unit0, unit1, operand kind); "
             "non-trivial = a temperature-specific branch is involved: binary cases whose operands are not the same offset-free unit, "
@@ -632,6 +636,21 @@ def compare(chk, line, exp, rep):
                 p, q = core.b2f(rep[1]), core.b2f(rep[2])
                 if PYCMP[pyop](p, q) != got[i]:
                     chk.disagree("c08.cmp", f"{x0} [{u0.name}] {fname} {x1} [{u1.name}]: unyt {got[i]}, model compares {p} with {q}")
+    elif kind == "floordiv":
+        _, u0, u1, i, x0, x1, outcomes = exp
+        for fname, oc in outcomes.items():
+            if oc[0] == "err":
+                if rep[0] != "err" or rep[1] != oc[1]:
+                    chk.disagree("c08.floordiv", f"{u0.name} // {u1.name} [{fname}]: unyt raises {oc[1]}, model {rep}")
+            else:
+                _, bv, vs = oc
+                if rep[0] != "ok":
+                    chk.disagree("c08.floordiv", f"{u0.name} // {u1.name} [{fname}]: unyt returns {vs}, model {rep}")
+                    continue
+                ms, mb = core.b2f(rep[1]), core.b2f(rep[4])
+                raw = float(np.floor_divide(x0, mb))
+                if not fclose(vs[i] * bv, raw * ms, abs(raw * ms)):
+                    chk.disagree("c08.floordiv", f"{x0} [{u0.name}] // {x1} [{u1.name}] [{fname}]: unyt {vs[i]} x {bv}, model floor({x0} / {mb}) x {ms}")
     elif kind in ("mul", "div"):
         _, u0, u1, xs0, xs1, outcomes = exp
         for fname, oc in outcomes.items():
@@ -645,7 +664,7 @@ def compare(chk, line, exp, rep):
                     continue
                 ms = core.b2f(rep[1])
                 for x0, x1, v in zip(xs0, xs1, vs):
-                    raw = x0 * x1 if kind == "mul" else (float(np.floor_divide(x0, x1)) if fname == "floor" else x0 / x1)
+                    raw = x0 * x1 if kind == "mul" else x0 / x1
                     if not fclose(v * bv, raw * ms, abs(raw * ms)):
                         chk.disagree("c08." + kind, f"{x0} [{u0.name}] {kind} {x1} [{u1.name}] [{fname}]: unyt {v} x {bv}, model {raw} x {ms}")
                         break
